@@ -1,0 +1,296 @@
+//go:build verif
+// +build verif
+
+// Verification hook for property C08 (build tag "verif").  This file only adds
+// an exported entry point that calls the package's unexported functions
+// unchanged: the real detectSignals on every line, the real audition rounds on
+// every sigEvent it emits, the real collectObservation on every observation.
+
+package cmd
+
+import (
+	"context"
+	"fmt"
+	"io/ioutil"
+	"math"
+	"os"
+	"path/filepath"
+	"sort"
+	"time"
+
+	"github.com/knz/shakespeare/pkg/crdb/log"
+	"github.com/knz/shakespeare/pkg/crdb/stop"
+)
+
+// VerifC08Parser is one signal parser of an actor's role, as the real
+// configuration parser built it.
+type VerifC08Parser struct {
+	Name    string
+	Typ     int    // 0 event, 1 scalar, 2 delta
+	Group   string // "" (ts_now), ts_deltasecs, ts_rfc3339, ts_log
+	Layout  string
+	Re      string // the expanded regular expression
+	HasSink bool
+}
+
+// VerifC08Item is one input of the play: a line printed by an actor's
+// spotlight (already trimmed, as spotlight() does before detectSignals), a
+// mood change, or the end of the play.
+type VerifC08Item struct {
+	Kind  string // "line" | "mood" | "final"
+	Actor string
+	Text  string
+	Ts    float64
+	Mood  string
+}
+
+// VerifC08Fact says what Go's regexp and time.Parse make of one line for one
+// parser, obtained with the same calls detectSignals uses.
+type VerifC08Fact struct {
+	Signal string
+	Match  bool
+	TsCap  string // rp.re.ReplaceAllString(line, "${<group>}") ("" for ts_now)
+	ValCap string // rp.re.ReplaceAllString(line, "${event|scalar|delta}")
+	DateOK bool   // time.Parse(rp.timeLayout, TsCap) succeeded (date groups only)
+	DateNs int64  // parsed date minus epoch, nanoseconds
+}
+
+// VerifC08Value is one sample inside a sigEvent.
+type VerifC08Value struct {
+	Actor, Sig string
+	Typ        int
+	IsNum      bool
+	Num        float64
+	Str        string
+}
+
+// VerifC08SigEvent is one sigEvent detectSignals sent to the audition.
+type VerifC08SigEvent struct {
+	Ts     float64
+	Values []VerifC08Value
+}
+
+// VerifC08LineOut is everything observed for one item.
+type VerifC08LineOut struct {
+	Facts    []VerifC08Fact     // one per parser of the actor's role, declaration order
+	BeforeNs int64              // wall clock minus epoch just before detectSignals
+	AfterNs  int64              // ... and just after
+	Events   []VerifC08SigEvent // in emission order
+}
+
+// VerifC08Obs is one observation the audition sent to the collector.
+type VerifC08Obs struct {
+	Item int
+	Var  string
+	Val  string
+	Typ  int
+	Ts   float64
+}
+
+// VerifC08Result is everything VerifSpotlightPlay observed.
+type VerifC08Result struct {
+	ParseErr  string
+	Parsers   map[string][]VerifC08Parser // actor -> parsers of its role
+	Members   []string
+	Watchers  map[string][]string // variable -> watcherNames (declaration order)
+	ArrayVars []string
+	Outs      []VerifC08LineOut
+	Obs       []VerifC08Obs
+	AuditErr  string
+	Panic     string
+	CSV       map[string]string
+}
+
+// VerifSpotlightPlay parses cfgText, then for every item in order: a line is
+// given to the real (*spotMgr).detectSignals of its actor, every sigEvent that
+// comes out of the audit channel goes through the real (*audition).checkEvent,
+// every observation that comes out of the collector channel goes through the
+// real (*collector).collectObservation writing the real CSV files; mood
+// changes go through collectAndAuditMood and the end through checkFinal.
+func VerifSpotlightPlay(cfgText string, epochNs int64, items []VerifC08Item) (res VerifC08Result) {
+	defer func() {
+		if r := recover(); r != nil {
+			res.Panic = fmt.Sprintf("%v", r)
+		}
+	}()
+	cfg, err := verifParseString(cfgText, nil)
+	if err != nil {
+		res.ParseErr = err.Error()
+		return res
+	}
+	ctx := context.Background()
+	stopper := stop.NewStopper()
+	defer stopper.Stop(ctx)
+	tmp, err := ioutil.TempDir("", "shk-verif-c08")
+	if err != nil {
+		panic(err)
+	}
+	defer os.RemoveAll(tmp)
+	cfg.dataDir = tmp
+	if err := os.MkdirAll(filepath.Join(tmp, "csv"), 0755); err != nil {
+		panic(err)
+	}
+	epoch := time.Unix(0, epochNs).UTC()
+	rep := &verifReporter{start: epoch, min: math.Inf(1), max: math.Inf(-1)}
+	auditCh := make(chan auditableEvent, 1024)
+	collCh := make(chan collectorEvent, 65536)
+	spm := &spotMgr{
+		r:       rep,
+		cfg:     cfg,
+		stopper: stopper,
+		logger:  log.NewSecondaryLogger(ctx, nil, "spotlight", true, false),
+		auditCh: auditCh,
+	}
+	au := &audition{
+		r:       rep,
+		cfg:     cfg,
+		stopper: stopper,
+		logger:  log.NewSecondaryLogger(ctx, nil, "audit", true, false),
+		res:     &auditionResults{},
+		st:      makeAuditionState(cfg),
+		collCh:  collCh,
+	}
+	col := &collector{
+		r:       rep,
+		cfg:     cfg,
+		stopper: stopper,
+		st:      makeCollectorState(cfg),
+		logger:  log.NewSecondaryLogger(ctx, nil, "collector", true, false),
+	}
+	of := newOutputFiles()
+
+	res.Parsers = make(map[string][]VerifC08Parser)
+	for _, an := range cfg.actorNames {
+		a := cfg.actors[an]
+		for _, rp := range a.role.sigParsers {
+			_, has := a.sinks[rp.name]
+			res.Parsers[an] = append(res.Parsers[an], VerifC08Parser{Name: rp.name, Typ: int(rp.typ),
+				Group: rp.reGroup, Layout: rp.timeLayout, Re: rp.re.String(), HasSink: has})
+		}
+	}
+	for _, n := range cfg.audienceNames {
+		if _, ok := au.st.auditorStates[n]; ok {
+			res.Members = append(res.Members, n)
+		}
+	}
+	res.Watchers = make(map[string][]string)
+	for vn, v := range cfg.vars {
+		res.Watchers[vn.String()] = append([]string(nil), v.watcherNames...)
+		if v.isArray {
+			res.ArrayVars = append(res.ArrayVars, vn.String())
+		}
+	}
+	sort.Strings(res.ArrayVars)
+
+	drain := func(item int) {
+		for {
+			select {
+			case cev := <-collCh:
+				switch ev := cev.(type) {
+				case *auditionReport:
+					if _, err := col.collectAuditionReport(ctx, of, ev); err != nil && res.AuditErr == "" {
+						res.AuditErr = "collector: " + err.Error()
+					}
+				case *observation:
+					res.Obs = append(res.Obs, VerifC08Obs{Item: item, Var: ev.varName.String(), Val: ev.val, Typ: int(ev.typ), Ts: ev.ts})
+					if err := col.collectObservation(ctx, of, ev); err != nil && res.AuditErr == "" {
+						res.AuditErr = "collector: " + err.Error()
+					}
+				}
+				continue
+			default:
+			}
+			break
+		}
+	}
+
+	if err := au.processMoodChange(ctx, true, false, 0, "clear"); err != nil {
+		res.AuditErr = err.Error()
+	}
+	drain(-1)
+	res.Outs = make([]VerifC08LineOut, len(items))
+	for i, it := range items {
+		switch it.Kind {
+		case "line":
+			a, ok := cfg.actors[it.Actor]
+			if !ok {
+				panic("unknown actor " + it.Actor)
+			}
+			out := &res.Outs[i]
+			for _, rp := range a.role.sigParsers {
+				f := VerifC08Fact{Signal: rp.name, Match: rp.re.MatchString(it.Text)}
+				if f.Match {
+					if rp.reGroup != "" {
+						f.TsCap = rp.re.ReplaceAllString(it.Text, "${"+rp.reGroup+"}")
+						if rp.reGroup != "ts_deltasecs" {
+							if t, err := time.Parse(rp.timeLayout, f.TsCap); err == nil {
+								f.DateOK = true
+								f.DateNs = int64(t.Sub(epoch))
+							}
+						}
+					}
+					switch rp.typ {
+					case sigTypEvent:
+						f.ValCap = rp.re.ReplaceAllString(it.Text, "${event}")
+					case sigTypScalar:
+						f.ValCap = rp.re.ReplaceAllString(it.Text, "${scalar}")
+					case sigTypDelta:
+						f.ValCap = rp.re.ReplaceAllString(it.Text, "${delta}")
+					}
+				}
+				out.Facts = append(out.Facts, f)
+			}
+			out.BeforeNs = int64(time.Now().Sub(epoch))
+			spm.detectSignals(ctx, a, it.Text)
+			out.AfterNs = int64(time.Now().Sub(epoch))
+			for len(auditCh) > 0 {
+				aev := <-auditCh
+				ev, ok := aev.(*sigEvent)
+				if !ok {
+					continue
+				}
+				oe := VerifC08SigEvent{Ts: ev.ts}
+				for _, v := range ev.values {
+					ov := VerifC08Value{Actor: v.varName.actorName, Sig: v.varName.sigName, Typ: int(v.typ)}
+					switch x := v.val.(type) {
+					case float64:
+						ov.IsNum, ov.Num = true, x
+					case string:
+						ov.Str = x
+					default:
+						ov.Str = fmt.Sprintf("?%T:%v", v.val, v.val)
+					}
+					oe.Values = append(oe.Values, ov)
+				}
+				out.Events = append(out.Events, oe)
+				if res.AuditErr == "" {
+					// the audit loop's `case *sigEvent:`
+					if err := au.checkEvent(ctx, false, *ev); err != nil {
+						res.AuditErr = err.Error()
+					}
+				}
+				drain(i)
+			}
+		case "mood":
+			if res.AuditErr == "" {
+				if err := au.collectAndAuditMood(ctx, it.Ts, it.Mood); err != nil {
+					res.AuditErr = err.Error()
+				}
+			}
+			drain(i)
+		case "final":
+			if err := au.checkFinal(ctx); err != nil && res.AuditErr == "" {
+				res.AuditErr = err.Error()
+			}
+			drain(i)
+		}
+	}
+	of.CloseAll()
+	res.CSV = make(map[string]string)
+	files, _ := ioutil.ReadDir(filepath.Join(tmp, "csv"))
+	for _, f := range files {
+		b, _ := ioutil.ReadFile(filepath.Join(tmp, "csv", f.Name()))
+		res.CSV[f.Name()] = string(b)
+	}
+	return res
+}
